@@ -63,7 +63,8 @@ pub trait FarmBoostedYieldsModule:
         }
 
         for week in first_collect_week..=last_collect_week {
-            let rewards_to_distribute = self.remaining_boosted_rewards_to_distribute(week).take();
+            let rewards_to_distribute = self.remaining_boosted_rewards_to_distribute(week).take()
+                + self.accumulated_rewards_for_week(week).take();
             self.undistributed_boosted_rewards()
                 .update(|total_amount| *total_amount += rewards_to_distribute);
         }
